@@ -161,7 +161,7 @@ var loadIterations = 60
 
 // opBarrier, when set (concurrent phase of sameMix), makes every goroutine wait until all goroutines of the batch are
 // about to make their i-th call
-var opBarrier func(i int)
+var opBarrier func(k, i int)
 
 var fixedCwd string // the working directory of the harness process, set once by fixCwd
 
@@ -993,7 +993,7 @@ func runOp(t task, o op, i int, root string, ks keys) string {
 		layoutMb := &intoto.Metablock{Signed: layout}
 		must(layoutMb.Sign(ks.ownPriv))
 		if opBarrier != nil {
-			opBarrier(i)
+			opBarrier(t.K, i)
 		}
 		if failed != "" {
 			return failed
@@ -1058,6 +1058,9 @@ func runTask(t task, root string, yield bool) (out []string) {
 			defer func() {
 				if r := recover(); r != nil {
 					out[i] = fmt.Sprintf("PANIC %v", r)
+				}
+				if b := opBarrier; b != nil {
+					b(t.K, i) // never leave the other goroutines waiting for a call that panicked
 				}
 			}()
 			out[i] = strings.ReplaceAll(runOp(t, o, i, root, ks), root, "<ROOT>")
@@ -1201,8 +1204,14 @@ func runBatch(work string, b batch) batchResult {
 		var mu sync.Mutex
 		arrived := map[int]int{}
 		gates := map[int]chan struct{}{}
-		opBarrier = func(i int) {
+		passed := map[[2]int]bool{}
+		opBarrier = func(k, i int) {
 			mu.Lock()
+			if passed[[2]int{k, i}] { // a call arrives once (runTask arrives on behalf of a call that panicked before)
+				mu.Unlock()
+				return
+			}
+			passed[[2]int{k, i}] = true
 			if gates[i] == nil {
 				gates[i] = make(chan struct{})
 			}
